@@ -17,6 +17,13 @@ type GenOpts struct {
 	ID        string   // correlation id put in Case-Id
 	AllowBody bool
 	ExtraName []string // extra header names worth drawing (rule-named fields etc.)
+	// UpgradeNominate > 0: with that percentage the hop-by-hop part of the request is drawn from the
+	// "upgrade that nominates" family (GenUpgradeNominating) instead of the ordinary one. Zero draws nothing
+	// extra from the random stream (C04's cases stay what they were).
+	UpgradeNominate int
+	// ProxyAuth, when set, is the Proxy-Authorization value the proxy's own basic auth accepts: it is sent as
+	// the FIRST Proxy-Authorization line (left out on 1 in 5 of the requests that end a connection: those are refused).
+	ProxyAuth string
 }
 
 var (
@@ -120,6 +127,9 @@ func GenRequest(r *core.Rand, o GenOpts) *Request {
 		fs = append(fs, rig.Field{Name: caseVariant(r, "Host"), Value: host})
 	}
 	fs = append(fs, rig.Field{Name: "Case-Id", Value: o.ID})
+	if o.ProxyAuth != "" && (!o.Last || r.Chance(80)) {
+		fs = append(fs, rig.Field{Name: caseVariant(r, "Proxy-Authorization"), Value: o.ProxyAuth})
+	}
 
 	// end-to-end fields, some repeated
 	n := r.Range(0, 6)
@@ -175,7 +185,12 @@ func GenRequest(r *core.Rand, o GenOpts) *Request {
 	}
 	// hop-by-hop fields and Connection nominations
 	var nominated []string
-	if r.Chance(35) {
+	upNom := o.UpgradeNominate > 0 && r.Chance(o.UpgradeNominate)
+	if upNom {
+		var lines []rig.Field
+		lines, nominated = GenUpgradeNominating(r, o.ID, fs)
+		fs = append(fs, lines...)
+	} else if r.Chance(35) {
 		k := r.Range(1, 3)
 		for i := 0; i < k; i++ {
 			hn := core.Pick(r, hopNames[1:])
@@ -195,14 +210,14 @@ func GenRequest(r *core.Rand, o GenOpts) *Request {
 			fs = append(fs, rig.Field{Name: caseVariant(r, hn), Value: v})
 		}
 	}
-	if r.Chance(30) {
+	if !upNom && r.Chance(30) {
 		k := r.Range(1, 3)
 		for i := 0; i < k; i++ {
 			nm := core.Pick(r, append(append([]string{}, plainNames...), "X-Case-Other", "Keep-Alive", "Cookie", "Via", "X-Forwarded-For", "User-Agent", "X-Forwarded-Host"))
 			nominated = append(nominated, caseVariant(r, nm))
 		}
 	}
-	upgrade := r.Chance(8)
+	upgrade := !upNom && r.Chance(8)
 	if upgrade {
 		nominated = append(nominated, core.Pick(r, []string{"Upgrade", "upgrade"}))
 		fs = append(fs, rig.Field{Name: "Upgrade", Value: core.Pick(r, []string{"websocket", "h2c", "foo/1"})})
@@ -213,7 +228,9 @@ func GenRequest(r *core.Rand, o GenOpts) *Request {
 	if o.Last && r.Chance(30) {
 		nominated = append(nominated, core.Pick(r, []string{"close", "Close"}))
 	}
-	if len(nominated) > 0 {
+	if upNom {
+		fs = append(fs, ConnectionLines(r, nominated)...)
+	} else if len(nominated) > 0 {
 		if r.Chance(25) && len(nominated) > 1 {
 			// split across two Connection lines
 			fs = append(fs, rig.Field{Name: caseVariant(r, "Connection"), Value: strings.Join(nominated[:1], ", ")})
@@ -286,6 +303,141 @@ func stableShuffle(r *core.Rand, fs []rig.Field) []rig.Field {
 		k := strings.ToLower(fs[i].Name)
 		out = append(out, byName[k][used[k]])
 		used[k]++
+	}
+	return out
+}
+
+// ---- protocol upgrades that nominate further fields ----
+
+// UpgradeTokenSpellings are the ways the Upgrade option is written in a Connection token list.
+var UpgradeTokenSpellings = []string{"Upgrade", "Upgrade", "upgrade", "UPGRADE", "uPgRaDe"}
+
+// NominatedPool are the names an upgrade request nominates next to Upgrade: the credential fields, the
+// standard hop-by-hop set, names the proxy manages itself, and ordinary / custom end-to-end names.
+var NominatedPool = []string{
+	"Proxy-Authorization", "Proxy-Authorization", "Authorization", "Authorization", "Proxy-Connection", "Keep-Alive", "TE",
+	"Proxy-Authenticate", "Trailer", "Transfer-Encoding", "Connection", "Content-Length", "Host",
+	"HTTP2-Settings", "Sec-WebSocket-Key", "Sec-WebSocket-Protocol", "X-Custom", "X-Trace-Id", "Cookie", "Accept-Language", "Foo-Bar",
+	"User-Agent", "Via", "X-Forwarded-For", "X-Forwarded-Host", "Accept-Encoding", "Cache-Control", "X-Session-Token",
+}
+
+func respell(r *core.Rand, n string) string {
+	switch r.Intn(5) {
+	case 0:
+		return strings.ToLower(n)
+	case 1:
+		return strings.ToUpper(n)
+	case 2:
+		b := []byte(n)
+		for i := range b {
+			if r.Bool() {
+				if b[i] >= 'a' && b[i] <= 'z' {
+					b[i] -= 32
+				} else if b[i] >= 'A' && b[i] <= 'Z' {
+					b[i] += 32
+				}
+			}
+		}
+		return string(b)
+	default:
+		return n
+	}
+}
+
+// nominatedValue is a value worth protecting for a nominated field of the given name.
+func nominatedValue(r *core.Rand, name, id string, i int) string {
+	switch strings.ToLower(name) {
+	case "proxy-authorization":
+		return core.Pick(r, []string{"Basic Zm9vOmJhcg==", "Bearer pa-" + id, "Basic " + fmt.Sprintf("bm9tOnNlY3JldC0%d", i)})
+	case "authorization":
+		return core.Pick(r, []string{"Bearer nominated-" + id, "Basic bm9taW5hdGVkOnNlY3JldA==", "Digest username=\"n\""})
+	case "proxy-connection":
+		return core.Pick(r, []string{"keep-alive", "Keep-Alive", "close"})
+	case "keep-alive":
+		return core.Pick(r, []string{"timeout=5", "timeout=5, max=100"})
+	case "te":
+		return core.Pick(r, []string{"trailers", "gzip", "trailers, deflate;q=0.5"})
+	case "proxy-authenticate":
+		return "Basic realm=\"client-sent\""
+	case "http2-settings":
+		return "AAMAAABkAARAAAAAAAIAAAAA"
+	case "sec-websocket-key":
+		return "dGhlIHNhbXBsZSBub25jZQ=="
+	case "cache-control":
+		return core.Pick(r, []string{"no-store", "max-age=0"})
+	}
+	return fmt.Sprintf("nominated-%s-%d", id, i)
+}
+
+// GenUpgradeNominating draws the hop-by-hop part of a protocol-upgrade request whose Connection field lists,
+// next to the Upgrade option, further field names (credential fields, the standard hop-by-hop set, managed
+// and custom names), most of them present in the request with one to three values in odd spellings.
+// It returns the field lines to add (Upgrade lines and the nominated fields; NOT the Connection lines) and the
+// Connection tokens (render them with ConnectionLines). have = the lines the request has so far.
+func GenUpgradeNominating(r *core.Rand, id string, have []rig.Field) (lines []rig.Field, tokens []string) {
+	present := map[string]bool{}
+	for _, f := range have {
+		present[strings.ToLower(f.Name)] = true
+	}
+	nUp := 1
+	if r.Chance(25) {
+		nUp = 2
+	}
+	for i := 0; i < nUp; i++ {
+		lines = append(lines, rig.Field{Name: respell(r, "Upgrade"), Value: core.Pick(r, []string{"websocket", "WebSocket", "h2c", "foo/1", "h2c, websocket", "TLS/1.3, HTTP/1.1"})})
+	}
+	k := r.Range(1, 4)
+	for i := 0; i < k; i++ {
+		name := core.Pick(r, NominatedPool)
+		if r.Chance(10) {
+			name = "X-Nom-" + id
+		}
+		tokens = append(tokens, respell(r, name))
+		switch strings.ToLower(name) {
+		case "host", "content-length", "transfer-encoding", "trailer", "connection", "upgrade":
+			continue // framing / request-line material: only nominated
+		}
+		if present[strings.ToLower(name)] && r.Chance(50) || r.Chance(15) {
+			continue // already there (drawn by the ordinary part of the generator), or nominated but absent
+		}
+		nl := r.Range(1, 3)
+		for j := 0; j < nl; j++ {
+			lines = append(lines, rig.Field{Name: respell(r, name), Value: nominatedValue(r, name, id, j)})
+		}
+		present[strings.ToLower(name)] = true
+	}
+	// the Upgrade option at a random position of the token list
+	at := r.Intn(len(tokens) + 1)
+	tokens = append(tokens[:at:at], append([]string{core.Pick(r, UpgradeTokenSpellings)}, tokens[at:]...)...)
+	return lines, tokens
+}
+
+// ConnectionLines renders Connection tokens as one to three field lines with the separators and padding
+// HTTP allows in a token list (OWS, empty elements).
+func ConnectionLines(r *core.Rand, tokens []string) []rig.Field {
+	if len(tokens) == 0 {
+		return nil
+	}
+	nl := 1
+	if len(tokens) > 1 && r.Chance(35) {
+		nl = 2
+		if len(tokens) > 2 && r.Chance(30) {
+			nl = 3
+		}
+	}
+	var out []rig.Field
+	per := (len(tokens) + nl - 1) / nl
+	for i := 0; i < len(tokens); i += per {
+		end := i + per
+		if end > len(tokens) {
+			end = len(tokens)
+		}
+		sep := core.Pick(r, []string{",", ", ", ", ", " , ", ",\t", ", ,", ",  "})
+		v := strings.Join(tokens[i:end], sep)
+		if r.Chance(10) {
+			v += ","
+		}
+		out = append(out, rig.Field{Name: respell(r, "Connection"), Value: v})
 	}
 	return out
 }
